@@ -55,6 +55,8 @@ def Flaky(x: int, tag: int = 0) -> int:
     """fails when vf.rec.FLAGS['fail'] is set (failure that is not part of the inputs)"""
     import vf.rec as R
     R.rec("Flaky", x, tag)
+    if R.FLAGS.get("on_body"):
+        R.FLAGS["on_body"]()
     if R.FLAGS.get("fail"):
         raise ValueError("Flaky failed")
     return x * 10 + tag
